@@ -312,11 +312,18 @@ def check_c18(m, tier, seed):
         env2["CARGO_TARGET_DIR"] = os.path.join(m.BUILD, "typecheck-nostd")
         rc, out, _ = m.run(["cargo", "+nightly", "build", "--offline", "--quiet", "--no-default-features", "--features", "freeze"],
                            cwd=os.path.join(m.HARNESS, "typecheck"), env=env2, timeout=900)
-    gate = {"auto_trait_assertions": 0, "library_configurations": ["std", "no_std+alloc"]}
+    if rc == 0:
+        # ... and, with the par_iter feature, that par_iter() asks for nothing but T: Sync
+        env3 = dict(env)
+        env3["CARGO_TARGET_DIR"] = os.path.join(m.BUILD, "typecheck-par")
+        rc, out, _ = m.run(["cargo", "+nightly", "build", "--offline", "--quiet", "--features", "freeze,par_iter"],
+                           cwd=os.path.join(m.HARNESS, "typecheck"), env=env3, timeout=900)
+    gate = {"auto_trait_assertions": 0, "library_configurations": ["std", "no_std+alloc", "std+par_iter"]}
     if rc != 0:
         errs = "\n".join(l for l in out.splitlines() if not l.startswith("warning"))
-        # the only trait bounds in that crate are Send / Sync / Freeze
-        if "E0277" in out:
+        # the only trait bounds in that crate are Send / Sync / Freeze (E0277) and the availability of
+        # par_iter() for T: Sync (E0599: method exists but its trait bounds are not satisfied)
+        if ("E0277" in out or "E0599" in out) and "src/lib.rs" in out:
             m.say("  compile-time gate failed: Send / Sync / Freeze does not hold for every T")
             violation("auto-traits", errs)
         else:
@@ -336,6 +343,16 @@ def check_c18(m, tier, seed):
             raise m.Inconclusive("library did not build with -F unsafe_code for an unrelated reason:\n%s" % out[-1500:])
     gate["library_builds_with_forbid_unsafe_code"] = rc == 0
     cov["compile_time_gate"] = gate
+    if viol:
+        # the type-level part is refuted for every T; the workloads below may not even build then
+        for v in viol:
+            m.say(v)
+        m.write_evidence("C18", tier, seed, {
+            "evaluations": 1, "distinct_nontrivial": 2,
+            "rule": "compile-time gate only: the run stopped at the first refuted type-level fact (runtime workloads were not started)",
+            "samples": [{"compile_time_gate": gate}], "compile_time_gate": gate}, time.time() - t0, len(viol),
+            ["the compile-time gate failed; see the replay file for the compiler's diagnostics"])
+        return 1
 
     # (b) reader threads, native
     m.cargo_build(os.path.join(m.BUILD, "par"), "dev", features=["par_iter"], bins=("readers",))
